@@ -552,8 +552,8 @@ def rule_r3(repo):
 def run(repo, check):
     r1 = rule_r1(repo, check.tier)
     check.add(r1)
-    check.add(rule_r2(repo))
-    check.add(rule_r3(repo))
+    check.run_rule(rule_r2, repo)
+    check.run_rule(rule_r3, repo)
     check.coverage_extra = {
         'states': r1.extra['states'], 'transitions': r1.extra['transitions'], 'traces_validated_against_impl': 0,
         'samples': r1.extra['samples'] or [{'note': 'no product state sampled'}],
